@@ -91,6 +91,60 @@ static int inside_site(const mjModel* m, const mjData* d, int sid, const mjtNum*
     default: return -1;
   }
 }
+// own half-line / solid test: does p + t*v, t >= 0, meet the (convex) solid of site sid?  -1: unsupported shape
+static int interval_quadratic(mjtNum A, mjtNum B, mjtNum C, mjtNum* t0, mjtNum* t1) {
+  // solutions of A t^2 + 2 B t + C <= 0 with A > 0; returns 0 if empty
+  mjtNum disc = B * B - A * C; if (disc < 0) return 0;
+  mjtNum r = sqrt(disc); *t0 = (-B - r) / A; *t1 = (-B + r) / A; return 1;
+}
+static int ray_hits_site(const mjModel* m, const mjData* d, int sid, const mjtNum* p, const mjtNum* v) {
+  mjtNum r[3], lp[3], lv[3]; for (int i = 0; i < 3; i++) r[i] = p[i] - d->site_xpos[3 * sid + i];
+  mTv(d->site_xmat + 9 * sid, r, lp); mTv(d->site_xmat + 9 * sid, v, lv);
+  const mjtNum* s = m->site_size + 3 * sid; mjtNum t0, t1, lo = 0, hi = 1e30;
+  switch (m->site_type[sid]) {
+    case mjGEOM_SPHERE:
+      if (!interval_quadratic(lv[0] * lv[0] + lv[1] * lv[1] + lv[2] * lv[2], lp[0] * lv[0] + lp[1] * lv[1] + lp[2] * lv[2], lp[0] * lp[0] + lp[1] * lp[1] + lp[2] * lp[2] - s[0] * s[0], &t0, &t1)) return 0;
+      return t1 >= 0;
+    case mjGEOM_ELLIPSOID: {
+      mjtNum q[3], w[3]; for (int i = 0; i < 3; i++) { q[i] = lp[i] / s[i]; w[i] = lv[i] / s[i]; }
+      if (!interval_quadratic(w[0] * w[0] + w[1] * w[1] + w[2] * w[2], q[0] * w[0] + q[1] * w[1] + q[2] * w[2], q[0] * q[0] + q[1] * q[1] + q[2] * q[2] - 1, &t0, &t1)) return 0;
+      return t1 >= 0;
+    }
+    case mjGEOM_BOX:
+      for (int k = 0; k < 3; k++) {
+        if (fabs(lv[k]) < 1e-14) { if (fabs(lp[k]) > s[k]) return 0; }
+        else { mjtNum a = (-s[k] - lp[k]) / lv[k], b = (s[k] - lp[k]) / lv[k]; if (a > b) { mjtNum t = a; a = b; b = t; } if (a > lo) lo = a; if (b < hi) hi = b; if (lo > hi) return 0; }
+      }
+      return 1;
+    case mjGEOM_CYLINDER: {
+      // |xy| <= radius and |z| <= half height
+      mjtNum A = lv[0] * lv[0] + lv[1] * lv[1];
+      if (A < 1e-28) { if (lp[0] * lp[0] + lp[1] * lp[1] > s[0] * s[0]) return 0; }
+      else { if (!interval_quadratic(A, lp[0] * lv[0] + lp[1] * lv[1], lp[0] * lp[0] + lp[1] * lp[1] - s[0] * s[0], &t0, &t1)) return 0; if (t0 > lo) lo = t0; if (t1 < hi) hi = t1; }
+      if (fabs(lv[2]) < 1e-14) { if (fabs(lp[2]) > s[1]) return 0; }
+      else { mjtNum a = (-s[1] - lp[2]) / lv[2], b = (s[1] - lp[2]) / lv[2]; if (a > b) { mjtNum t = a; a = b; b = t; } if (a > lo) lo = a; if (b < hi) hi = b; }
+      return lo <= hi;
+    }
+    case mjGEOM_CAPSULE: {
+      // union of the cylinder part and the two end spheres
+      int hit = 0;
+      mjtNum A = lv[0] * lv[0] + lv[1] * lv[1]; mjtNum l2 = 0, h2 = 1e30; int ok = 1;
+      if (A < 1e-28) { if (lp[0] * lp[0] + lp[1] * lp[1] > s[0] * s[0]) ok = 0; }
+      else { if (!interval_quadratic(A, lp[0] * lv[0] + lp[1] * lv[1], lp[0] * lp[0] + lp[1] * lp[1] - s[0] * s[0], &t0, &t1)) ok = 0; else { if (t0 > l2) l2 = t0; if (t1 < h2) h2 = t1; } }
+      if (ok) {
+        if (fabs(lv[2]) < 1e-14) { if (fabs(lp[2]) > s[1]) ok = 0; }
+        else { mjtNum a = (-s[1] - lp[2]) / lv[2], b = (s[1] - lp[2]) / lv[2]; if (a > b) { mjtNum t = a; a = b; b = t; } if (a > l2) l2 = a; if (b < h2) h2 = b; }
+        if (ok && l2 <= h2) hit = 1;
+      }
+      for (int e = -1; e <= 1 && !hit; e += 2) {
+        mjtNum q[3] = {lp[0], lp[1], lp[2] - e * s[1]};
+        if (interval_quadratic(lv[0] * lv[0] + lv[1] * lv[1] + lv[2] * lv[2], q[0] * lv[0] + q[1] * lv[1] + q[2] * lv[2], q[0] * q[0] + q[1] * q[1] + q[2] * q[2] - s[0] * s[0], &t0, &t1) && t1 >= 0) hit = 1;
+      }
+      return hit;
+    }
+    default: return -1;
+  }
+}
 static int in_subtree(const mjModel* m, int b, int root) { while (b > root) b = m->body_parentid[b]; return b == root; }
 
 // ---------------------------------------------------------------- user sensors
@@ -303,6 +357,7 @@ static mjModel* build(uint64_t seed, unsigned feat, int nbody) {
   return m;
 }
 
+static int touch_inside, touch_reproj, touch_wrongdir;   // per repetition: contacts counted by clause (inside / outward ray) and contacts only a backward ray would pick up
 // ---------------------------------------------------------------- the documented quantity of sensor i
 // returns the number of expected values written to e (0: no oracle), sets *scl (magnitude of intermediate terms)
 static int expected(const mjModel* m, mjData* d, int i, mjtNum* e, mjtNum* scl, const char** kind) {
@@ -437,9 +492,13 @@ static int expected(const mjModel* m, mjData* d, int i, mjtNum* e, mjtNum* scl, 
         if (f[0] <= 0) continue;
         int in = inside_site(m, d, id, c->pos);
         if (in < 0) return 0;
-        if (!in) {
-          mjtNum ray[3]; for (int k = 0; k < 3; k++) ray[k] = (b2 == bd ? -1 : 1) * c->frame[k];
-          in = mju_rayGeom(d->site_xpos + 3 * id, d->site_xmat + 9 * id, m->site_size + 3 * id, c->pos, ray, m->site_type[id], NULL) >= 0;
+        if (in) touch_inside++;
+        else {
+          // the contact normal points from geom 1 to geom 2: the ray leaving the sensorized body is +normal for body 1, -normal for body 2
+          mjtNum ray[3], back[3]; for (int k = 0; k < 3; k++) { ray[k] = (b1 == bd ? 1 : -1) * c->frame[k]; back[k] = -ray[k]; }
+          in = ray_hits_site(m, d, id, c->pos, ray);
+          if (in < 0) return 0;
+          if (in) touch_reproj++; else if (ray_hits_site(m, d, id, c->pos, back) > 0) touch_wrongdir++;
         }
         if (in) tot += f[0];
       }
